@@ -43,7 +43,8 @@ pub fn run(s: &dyn Subject, ctx: &Ctx) -> Option<DeclReport> {
                         rep.bump("ok");
                     }
                     (Obs::Err { variant, display }, ParseObs::Validate { variant: v2, display_inner, .. }) if variant == v2 && display == display_inner => {
-                        rep.class(&format!("validate:{variant}"));
+                        let vclass = if spec.custom.is_some() { "custom-error" } else { variant.as_str() };
+                        rep.class(&format!("validate:{vclass}"));
                         rep.bump("validate-error");
                     }
                     (Obs::Ok(_), ParseObs::Ok(_)) => rep.violate("ok-but-different-value", input.clone(), obs.show(), c.show(), format!("parsed inner {}", v.show())),
